@@ -91,7 +91,8 @@ def run(rep):
                         break
             rep.coverage['evaluations'] = rep.coverage.get('evaluations', 0) + len(cases)
             rep.coverage['traces_validated_against_impl'] = rep.coverage.get('traces_validated_against_impl', 0) + len(cases)
-        corp.coverage({'final_checks_judged': n_judged, 'impl_model_differences': len(diffs)})
+        n_docs, n_nodes = doc_level(rep, m, quick)
+        corp.coverage({'final_checks_judged': n_judged, 'impl_model_differences': len(diffs), 'documents_emitted_and_validated': n_docs, 'document_nodes_judged': n_nodes})
     finally:
         corp.close()
     if not res['ok'] or res['forbidden'] or not res['build_ok']:
@@ -99,6 +100,61 @@ def run(rep):
             rep.violation('Properties/C01.v no longer checks (theorem %s)' % res['failing'], {'theorem': res['failing'], 'log': res['log'][-3000:]}, found_input=False)
     rep.assumptions += ['children are minimal elements built by a fixed factory; nested documents are exercised by C08/C09',
                         'M_py (coq/Model/PyM.v) is a hand transliteration tied to the code only by this correspondence']
+
+
+def doc_level(rep, m, quick):
+    """nested documents: schema-generated documents whose children are supplied to the API in a SHUFFLED order at every node; every
+    document the library emits is validated node by node: the child tags of every element must be a word of its content model"""
+    import random
+    import xml.etree.ElementTree as ET
+    from . import docgen, docs, extract
+    g = m.g
+    rng = random.Random(rep.seed * 5 + 1)
+    G = docgen.Gen(g, rng)
+
+    def shuffle(n):
+        if rng.random() < 0.6:
+            rng.shuffle(n['kids'])
+        for k in n['kids']:
+            shuffle(k)
+    cases = []
+    names = sorted(g['elements'])
+    for name in names:
+        for _ in range(1 if quick else 8):
+            d = G.element(name, 0, 2 if quick else 3)
+            shuffle(d)
+            cases.append(d)
+    for name in ('score-partwise', 'measure', 'note', 'direction', 'attributes', 'harmony', 'notations', 'part-list', 'score-part', 'barline', 'print', 'defaults', 'identification'):
+        for _ in range(12 if quick else 120):
+            d = G.element(name, 0, 3 if quick else 4)
+            shuffle(d)
+            cases.append(d)
+    ra, _ = docs.run_docs(api=cases)
+    etype = {n: (t[0][6:] if t[0].startswith('<anon>') else t[0]) for n, t in g['elements'].items()}
+    mx = extract.Model(extra_templates={'XSD:' + k: v for k, v in g['xsd_particles'].items()})
+    try:
+        items, where = [], []
+        n_docs = 0
+        for node, r in zip(cases, ra):
+            if 's1' not in r:
+                continue
+            n_docs += 1
+            root = ET.fromstring(r['s1'])
+            for el in root.iter():
+                t = etype.get(el.tag)
+                if t in g['xsd_particles']:
+                    items.append(('XSD:' + t, [c.tag for c in el]))
+                    where.append((node, r['s1'], el.tag))
+        acc = mx.accepts(items)
+        seen = set()
+        for (node, text, tag), it, a in zip(where, items, acc):
+            if not a and (tag, tuple(it[1])) not in seen:
+                seen.add((tag, tuple(it[1])))
+                rep.finding_or_violation('C01:doc:' + tag, 'the library emits a document in which <%s> has children %s, not a word of its content model' % (tag, it[1]),
+                                         {'element': tag, 'children': it[1], 'document_built': node, 'emitted': text[:2000]})
+    finally:
+        mx.close()
+    return n_docs, len(items)
 
 
 def replay(path):
